@@ -76,6 +76,9 @@ class InstrumentationStackValue(enum.IntEnum):
     SECOND = 2
     """The second value on the stack."""
 
+    THIRD = 3
+    """The third value on the stack (only with the generators for Python 3.11+)."""
+
 
 @dataclass(frozen=True)
 class InstrumentationConstantLoad:
